@@ -10,6 +10,7 @@ import (
 	"testing"
 
 	"github.com/bitcoin-sv/block-headers-service/verifharness/stats"
+	"github.com/rs/zerolog"
 	"pgregory.net/rapid"
 )
 
@@ -276,6 +277,11 @@ func (p Prop[P]) replayEnv(t *testing.T) bool {
 		t.Errorf("%v", err)
 	}
 	return true
+}
+
+func nopLogger() *zerolog.Logger {
+	l := zerolog.Nop()
+	return &l
 }
 
 func quickThorough(q, th int) int {
